@@ -1184,40 +1184,37 @@ fn cframe_wire(explicit0: bool) {
 }
 
 //@ obligation: U3.CFrame.wire.pos
-//@ props: C01 C04 C13
+//@ props: C01 C04
 //@ fns: decode_prop_chunk[Type::CFrame/VariantType::CFrame]
 //@ kind: bounded
-//@ bound: column of 2 values with the fixed rotation ids 0a and 23 (the id -> matrix table is covered for all ids by U6.rotid.table); positions symbolic; wire truncated at any length
+//@ bound: complete column of 2 values with the fixed rotation ids 0a and 23 (the id -> matrix table is covered for all ids by U6.rotid.table); positions symbolic
 //@ checks: functional
-//@ covers: 2
+//@ covers: 1
 //@ timeout: 900
-//@ note: quick-tier stand-in for U3.CFrame.wire.id (symbolic ids, thorough tier): rotation section then positions as three interleaved Float32 arrays
+//@ note: quick-tier stand-in for U3.CFrame.wire.id / .explicit (symbolic ids, explicit matrices, truncation; thorough tier): rotation section, then the positions as three interleaved Float32 arrays
 #[kani::proof]
 #[kani::unwind(6)]
 #[kani::stub(alloc::fmt::format, crate::chunk::__verif::fmt_stub)]
 fn u3_cframe_wire_pos() {
-    let mut w: [u8; 26] = kani::any();
+    let p: [u8; 24] = kani::any();
+    let mut w = [0u8; 26];
     w[0] = 0x0a;
     w[1] = 0x23;
-    let n: usize = kani::any();
-    kani::assume(n <= 26);
+    w[2..].copy_from_slice(&p);
     let mut shim = shim2();
-    let r = dec_CFrame_CFrame(&w[..n], &TI2, &mut shim);
-    if n == 26 {
-        assert!(r.is_ok());
-        let mut d = De::new(&w);
-        d.pos = 2;
-        let x = d.rbx_f32::<2>();
-        let y = d.rbx_f32::<2>();
-        let z = d.rbx_f32::<2>();
-        let m0 = m3_of(&spec_rotation(0x0a).unwrap());
-        let m1 = m3_of(&spec_rotation(0x23).unwrap());
-        assert!(out!(shim, 0, Variant::CFrame(c) => m3eq(&c.orientation, &m0) && feq(c.position.x, x[0]) && feq(c.position.y, y[0]) && feq(c.position.z, z[0])));
-        assert!(out!(shim, 1, Variant::CFrame(c) => m3eq(&c.orientation, &m1) && feq(c.position.x, x[1]) && feq(c.position.y, y[1]) && feq(c.position.z, z[1])));
-        assert!(once_each(&shim));
-    }
-    kani::cover!(n == 26, "complete input reached");
-    kani::cover!(n == 0, "truncated input reached");
+    let r = dec_CFrame_CFrame(&w, &TI2, &mut shim);
+    assert!(r.is_ok());
+    let mut d = De::new(&w);
+    d.pos = 2;
+    let x = d.rbx_f32::<2>();
+    let y = d.rbx_f32::<2>();
+    let z = d.rbx_f32::<2>();
+    let m0 = m3_of(&spec_rotation(0x0a).unwrap());
+    let m1 = m3_of(&spec_rotation(0x23).unwrap());
+    assert!(out!(shim, 0, Variant::CFrame(c) => m3eq(&c.orientation, &m0) && feq(c.position.x, x[0]) && feq(c.position.y, y[0]) && feq(c.position.z, z[0])));
+    assert!(out!(shim, 1, Variant::CFrame(c) => m3eq(&c.orientation, &m1) && feq(c.position.x, x[1]) && feq(c.position.y, y[1]) && feq(c.position.z, z[1])));
+    assert!(once_each(&shim));
+    kani::cover!(true, "end of harness reached");
     std::mem::forget(shim);
 }
 
